@@ -241,7 +241,8 @@ Fixpoint ks_assign_parts (m : list (tri * Z)) (parts : list ks_pb) (partInd : Z)
   end.
 
 Definition ks_sp_gen_triparts (shapeTris : list tri) (s : ks_sp) : res ks_sp :=
-  bind (ks_assign_parts (ks_tri_index shapeTris 0%Z []) (kp_parts s) 0%Z (repeat 0%Z (length shapeTris)))
+  (* triParts.clear(); triParts.resize(shapeTris.size(), -1): -1 = in no partition *)
+  bind (ks_assign_parts (ks_tri_index shapeTris 0%Z []) (kp_parts s) 0%Z (repeat (-1)%Z (length shapeTris)))
        (fun tp => Ok (ks_mkSP (kp_np s) (kp_parts s) (kp_mapped s) tp)).
 
 (* NiSkinPartition::GenerateTrueTrianglesFromTriParts (Skin.cpp:478-503) *)
@@ -409,7 +410,9 @@ Definition ks_nf_set_default (v : ks_ver) (sh : ks_shape) (k : ks_skin) : ks_ski
   let mapped := negb (kh_bs sh) in
   let dis1 := match kk_dis k with Some _ => Some [ks_default_info v] | None => None end in
   let nv := kh_nv sh in
-  let p1 := if 0 <? nv then kb_set_vm (kb_set_nv (kb_set_hvm ks_pb0 true) nv) (ks_nseq (wrap16 nv)) else ks_pb0 in
+  (* NiSkinPartition::PartitionBlock part; part.hasFaces = true; *)
+  let p0 := ks_mkPB 0 0 0 0 0 [] false [] false [] [] true [] [] false [] [] in
+  let p1 := if 0 <? nv then kb_set_vm (kb_set_nv (kb_set_hvm p0 true) nv) (ks_nseq (wrap16 nv)) else p0 in
   let p2 := if negb (ks_isnil (kh_tris sh)) then
               let p := kb_set_tt (kb_set_nt p1 (wrap16 (vlen (kh_tris sh)))) (kh_tris sh) in
               if negb mapped then kb_set_tris p (kh_tris sh) else p
